@@ -29,7 +29,7 @@ TermSet(name) ==
     CASE name = "t22a" -> {Aff(<<<<1, 0>>, <<0, 1>>>>, <<0, 0>>), Aff(<<<<0, 1>>, <<1, 0>>>>, <<1, -2>>)}
       [] name = "t22b" -> {Aff(<<<<1, 0>>, <<0, 1>>>>, <<0, 0>>), Aff(<<<<0, 1>>, <<1, 0>>>>, <<1, -2>>), Aff(<<<<2, 0>>, <<0, -1>>>>, <<0, -1>>)}
       [] name = "t22c" -> {Aff(<<<<1, 0>>, <<0, 1>>>>, <<0, 0>>), Aff(<<<<1, 0>>, <<0, 1>>>>, <<0, 1>>), Aff(<<<<1, 0>>, <<0, 2>>>>, <<0, 0>>)}   \* differ only in bias / one coefficient
-      [] name = "t22z" -> {Aff(<<<<0, 0>>, <<0, 1>>>>, <<0, 0>>), Aff(<<<<1, 0>>, <<0, 0>>>>, <<0, 1>>)}     \* a constant component that ties with the thresholds of p2a
+      [] name = "t22z" -> {Aff(<<<<0, 0>>, <<0, 1>>>>, <<0, 0>>), Aff(<<<<1, 0>>, <<0, 0>>>>, <<0, 1>>), Aff(<<<<0, 0>>, <<0, 0>>>>, <<2, -1>>)}   \* the last one is constant     \* a constant component that ties with the thresholds of p2a
       [] name = "t33s" -> {Aff(<<<<0, 1, 0>>, <<1, 0, 1>>, <<0, 0, 2>>>>, <<1, 0, -1>>)}
       [] name = "t23s" -> {Aff(<<<<1, 0, 1>>, <<0, 2, -1>>>>, <<0, 1>>), Aff(<<<<0, 1, 0>>, <<1, 0, 0>>>>, <<2, 0>>)}     \* R^3 -> R^2
       [] name = "t22s" -> {Aff(<<<<0, 1>>, <<1, 0>>>>, <<1, 0>>)}
